@@ -872,6 +872,10 @@ func (s *Server) SetReplicationConfig(cfg config.ReplicationConfig) error {
 	}
 
 	if rule != nil {
+		// GetRule hands out the served rule itself: edit a copy, so that SetRule sees a change (and saves it)
+		// and nothing served is touched before SetRule and Persist have succeeded.
+		ruleCopy := *rule
+		rule = &ruleCopy
 		rule.Count = int(cfg.MaxReplicas)
 		rule.LocationLabels = cfg.LocationLabels
 		if err := s.GetRaftCluster().GetRuleManager().SetRule(rule); err != nil {
@@ -885,8 +889,11 @@ func (s *Server) SetReplicationConfig(cfg config.ReplicationConfig) error {
 	if err := s.persistOptions.Persist(s.storage); err != nil {
 		s.persistOptions.SetReplicationConfig(old)
 		if rule != nil {
-			rule.Count = int(old.MaxReplicas)
-			if e := s.GetRaftCluster().GetRuleManager().SetRule(rule); e != nil {
+			// SetRule made `rule` the served object: roll back through a fresh copy, or the patch is empty again
+			rollback := *rule
+			rollback.Count = int(old.MaxReplicas)
+			rollback.LocationLabels = old.LocationLabels
+			if e := s.GetRaftCluster().GetRuleManager().SetRule(&rollback); e != nil {
 				log.Error("failed to roll back count of rule when update replication config", errs.ZapError(e))
 			}
 		}
